@@ -96,43 +96,44 @@ def run(prop, tier):
         vlib.build_harness()
         scen = [
             ("wfc", {"CKeys": {1, 2}, "CVals": {1, 2, 3}, "NWrites": 3, "NFlushes": 2, "NCompactions": 1,
-                     "Procs": {"w", "f", "c"}, "Guard287": True}),
+                     "Procs": {"w", "f", "c"}, "Guard287": "id"}),
             ("wfk", {"CKeys": {1, 2}, "CVals": {1, 2, 3}, "NWrites": 3, "NFlushes": 2, "NCompactions": 0,
-                     "Procs": {"w", "f", "k"}, "Guard287": True}),
+                     "Procs": {"w", "f", "k"}, "Guard287": "id"}),
             ("wfr", {"CKeys": {1, 2}, "CVals": {1, 2, 3}, "NWrites": 3, "NFlushes": 2, "NCompactions": 0,
-                     "NRotates": 2, "Procs": {"w", "f", "r"}, "Guard287": True}),
+                     "NRotates": 2, "Procs": {"w", "f", "r"}, "Guard287": "id"}),
             ("wfcd", {"CKeys": {1, 2}, "CVals": {1, 2, 3}, "NWrites": 2, "NFlushes": 2, "NCompactions": 1,
-                      "Procs": {"w", "f", "c", "d"}, "Guard287": True}),
+                      "Procs": {"w", "f", "c", "d"}, "Guard287": "id"}),
         ]
         # clear while a flush is in flight, then new writes sealed by another thread before the flush
         # registers: the fjall#287 guard must compare memtable identities, not counts
         scen.append(("wfkr", {"CKeys": {1, 2}, "CVals": {1, 2, 3}, "NWrites": 2, "NFlushes": 1, "NCompactions": 0,
-                              "NRotates": 1, "Procs": {"w", "f", "k", "r"}, "Guard287": True}))
+                              "NRotates": 1, "Procs": {"w", "f", "k", "r"}, "Guard287": "id"}))
         # two ordinary compactions overlapping in time (all visible tables -> last level, L0 -> L1)
         scen.append(("wfcc", {"CKeys": {1, 2}, "CVals": {1, 2, 3}, "NWrites": 2, "NFlushes": 2, "NCompactions": 1,
-                              "Procs": {"w", "f", "c", "c2"}, "Guard287": True, "CScripted": True}))
+                              "Procs": {"w", "f", "c", "c2"}, "Guard287": "id", "CScripted": True}))
         # the caller's seqno.next() and the insert as two steps: other threads run in between
         scen.append(("w2fr", {"CKeys": {1, 2}, "CVals": {1, 2, 3}, "NWrites": 3, "NFlushes": 1, "NCompactions": 0,
-                              "NRotates": 1, "Procs": {"w", "f", "r"}, "Guard287": True, "SplitW": True}))
+                              "NRotates": 1, "Procs": {"w", "f", "r"}, "Guard287": "id", "SplitW": True}))
         for _, consts in scen:
             consts.setdefault("NRotates", 0)
             consts.setdefault("SplitW", False)
             consts.setdefault("CScripted", False)
         if tier == "thorough":
             scen.append(("wfc2", {"CKeys": {1, 2}, "CVals": {1, 2, 3}, "NWrites": 4, "NFlushes": 2,
-                                  "NCompactions": 2, "NRotates": 0, "SplitW": False, "CScripted": False, "Procs": {"w", "f", "c"}, "Guard287": True}))
+                                  "NCompactions": 2, "NRotates": 0, "SplitW": False, "CScripted": False, "Procs": {"w", "f", "c"}, "Guard287": "id"}))
             scen.append(("wfcr", {"CKeys": {1, 2}, "CVals": {1, 2, 3}, "NWrites": 3, "NFlushes": 2,
                                   "NCompactions": 1, "NRotates": 1, "SplitW": False, "CScripted": False, "Procs": {"w", "f", "c", "r"},
-                                  "Guard287": True}))
+                                  "Guard287": "id"}))
             scen.append(("w2fcr", {"CKeys": {1, 2}, "CVals": {1, 2, 3}, "NWrites": 3, "NFlushes": 1,
                                    "NCompactions": 1, "NRotates": 1, "SplitW": True, "CScripted": False,
-                                   "Procs": {"w", "f", "c", "r"}, "Guard287": True}))
+                                   "Procs": {"w", "f", "c", "r"}, "Guard287": "id"}))
             scen.append(("wfcc2", {"CKeys": {1, 2}, "CVals": {1, 2, 3}, "NWrites": 3, "NFlushes": 2,
                                    "NCompactions": 2, "NRotates": 0, "SplitW": False, "CScripted": True,
-                                   "Procs": {"w", "f", "c", "c2"}, "Guard287": True}))
+                                   "Procs": {"w", "f", "c", "c2"}, "Guard287": "id"}))
         states = trans = 0
         scheds = []
         witnesses = {}
+        mutants = {}
         scripted_keys = set()
         forced_first = []
         known = vlib.load_known()
@@ -152,6 +153,25 @@ def run(prop, tier):
             states += st.get("distinct", 0)
             trans += st.get("generated", 0)
             log(f"[{prop}] LsmConc {name}: {st.get('distinct')} states, all interleavings ok")
+            if "k" in consts["Procs"]:
+                # mutant models: the schedules on which the stale-flush guard matters (no guard; a
+                # guard that only counts) are counterexamples of the mutants and are always forced
+                # on the real tree
+                for mut in ("none", "count"):
+                    cfgm = os.path.join(work, f"{name}-{mut}.cfg")
+                    conc_cfg(cfgm, dict(consts, Guard287=mut))
+                    cexm = os.path.join(work, f"{name}-{mut}.json")
+                    rc, out = vlib.run_tlc("MC_conc.tla", cfgm, work, workers=4, timeout=900,
+                                           extra=["-dumpTrace", "json", cexm])
+                    if "is violated" in out:
+                        try:
+                            with open(cexm) as f:
+                                dd = json.load(f)
+                            ws = max((x[1].get("sched", []) for x in dd["counterexample"]["state"]), key=len)
+                            forced_first.append(ws)
+                            mutants[f"{name}/{mut}"] = len(ws)
+                        except (OSError, KeyError, ValueError, IndexError):
+                            pass
             if consts.get("SplitW"):
                 # witness: the recorded known finding is reachable in the model (NoLateInsert is
                 # expected to be violated); its counterexample is replayed like any schedule
@@ -315,6 +335,7 @@ def run(prop, tier):
             "trace_lines_validated": nl,
             "scenarios": [n for n, _ in scen],
             "known_finding_reachable_in_model": witnesses,
+            "schedules_from_mutant_models": mutants,
             "known_findings_reproduced": sorted(known_hit),
             "atomicity_probes": len(probes),
             "drift_lines": sum(1 for m in msgs if m["kind"] == "DRIFT"),
